@@ -102,7 +102,12 @@ claim('C19',
 na('C07', 'no unit built in this round: the in-family slice is only glue (sign/zero/range handling of mpz_gcd, lcm, invert, gcdext over ASSUMED mpn_gcd/gcdext kernels); Lehmer/HGCD/Jacobi need mathematical integers that CBMC cannot express (DESIGN 6 C07, 11.4)')
 na('C08', 'no unit built in this round: only argument-handling glue of mpz_powm/pow_ui over ASSUMED REDC/powm kernels would be in reach (DESIGN 6 C08, 11.4)')
 na('C09', 'core slice attempted and undecided: the modexact identity behind the perfect-square residue filters did not come back from kissat in 10 min per divisor, the whole-function form in 30 min (DESIGN 11.3); Newton/Zimmermann root iterations are out of reach')
-na('C13', 'no unit built in this round: the in-family slice (mpf format invariant and memory safety of mpf_add/sub/mul/div, exact mpf functions) was not reached; the 2^(2-p) error bound is a statement over reals that no contract here expresses (DESIGN 6 C13, 11.4)')
+claim('C13',
+      "For the functions that are exact on the stored value - mpf_neg, mpf_abs, mpf_set (top min(size, prec+1) limbs, same exponent, every precision and "
+      "r == u), mpf_integer_p, mpf_get_ui, mpf_get_si, the six mpf_fits_*_p, mpf_set_ui/si, mpf_cmp, mpf_cmp_ui - unbounded limb-exact proofs, and the mpf "
+      "format rules (top limb non-zero, at most prec+1 limbs in a block of exactly prec+1 limbs, zero has exponent 0) as a proved post-condition.",
+      TB + "NOT covered: mpf_add/sub/mul/div/sqrt and their _ui forms, mpf_set_q/set_z/set_d/set_str, mpf_mul_2exp/div_2exp, floor/ceil/trunc, mpf_get_str - "
+      "i.e. every function with rounding; the 2^(2-p) relative error bound is a statement over reals that no contract here expresses.")
 na('C14', 'CBMC has no x86-64 assembly front end, so "assembly kernel == C kernel" is not a contract obligation for any .asm/.as file; fat binary and --enable-* build variants are configurations, not functions under contract (DESIGN.md section 6 C14)')
 na('C16', 'n!, binomials, Fibonacci/Lucas and primality are defined by unbounded products/recurrences and number theory; CBMC has no mathematical integers or induction over them, so no contract within reach expresses the property (DESIGN.md section 6 C16)')
 na('C20', "CBMC's C++ front end cannot parse mpirxx.h (templates, libstdc++ headers); no deductive C++ verifier is installed (DESIGN.md section 6 C20)")
